@@ -59,7 +59,11 @@ class NumericArray(list):
     """
     if len(self) == 0:
       raise gfapy.ValueError("A numeric array cannot be empty")
-    self.compute_subtype()
+    if self.compute_subtype() == "f":
+      for f in self:
+        if f != f or f in (float("inf"), float("-inf")):
+          raise gfapy.ValueError(
+            "{} cannot be represented in a numeric array".format(f))
 
   def compute_subtype(self):
     """
